@@ -76,6 +76,7 @@ func runC19(c *Ctx) {
 	p := c.P
 	trackMapKeys(c, "R4")
 	blocklistLooksAtBaseName(c, "R5")
+	lineEndingFallsBack(c, "R4")
 	// ---- R1 escape coverage -----------------------------------------------------------------------
 	pats, pos, ok := stringMapGlobal(p, "commands", "trackEscapePatterns")
 	globs, gpos, ok2 := stringSliceGlobal(p, "commands", "trackEscapeStrings")
